@@ -117,7 +117,7 @@ FamilyTable ==
   @@ "req.post"  :> (ReqPost \cup {"req.parsedURI", "ctx.derived", "ctx.formValueFunc"})
   @@ "req.options" :> {"req.options", "req.parsedURI"}
   @@ "req.isTLS" :> {"req.isTLS", "req.parsedURI"}
-  @@ "resp.h"    :> (RespHFields \cup RespHViews \cup RespViews)
+  @@ "resp.h"    :> (RespHFields \cup RespHViews \cup RespViews \cup {"resp.skipBody"})   \* MustSkipBody() reads the status code
   @@ "resp.body" :> RespBody
   @@ "trace"     :> (TraceStats \ {"trace.level"})
 Fam(f) == IF f \in DOMAIN FamilyTable THEN FamilyTable[f] ELSE {f}
@@ -125,8 +125,10 @@ Fam(f) == IF f \in DOMAIN FamilyTable THEN FamilyTable[f] ELSE {f}
 CtxMutators == {m \in DOMAIN MutTable : "Ctx" \in MutTable[m].kinds}
 (* The Touch table was measured (C09) on requests whose response was still empty; what a mutator clears shows only
    when something is there.  Additions found by X06's pairs: *)
-ExtraTouch(m) == IF m = "Ctx.NotModified" THEN Fam("resp.body") \cup RespFlags      \* NotModified = Response.Reset() + 304
-                 ELSE {}
+RespResetters == {"Ctx.NotModified", "Ctx.NotFound", "Ctx.AbortWithMsg",         \* call Response.Reset() first
+                  "Ctx.File", "Ctx.FileAttachment", "Ctx.FileFromFS"}            \* ServeFile answers through the three above
+ExtraTouch(m) == (IF m \in RespResetters THEN Fam("resp.h") \cup Fam("resp.body") \cup RespFlags ELSE {})
+                 \cup (IF m \in {"Ctx.File", "Ctx.FileAttachment", "Ctx.FileFromFS"} THEN {"ctx.index"} ELSE {})   \* AbortWithMsg on a request it refuses
 Touch(m) == ((UNION {Fam(f) : f \in MutTable[m].fam}) \cup ExtraTouch(m)) \cap Comp
 TouchSets == {Touch(m) : m \in CtxMutators}
 
